@@ -401,7 +401,6 @@ def gen_cases(rng, tier, ctx):
 _ATOMS = None
 _SEG_VALUE = None
 EVENTS = []
-_PATCHED = False
 
 
 def _atoms():
@@ -423,46 +422,6 @@ def build_pt(p):
         return RepetitionPT(build_pt(p[3]), e_str(p[1]), measurements=[('M', 0, 1)] if p[2] else None)
     return MappingPT(build_pt(p[2]), parameter_mapping={n: e_str(e) for n, e in p[1]},
                      allow_partial_parameter_mapping=True)
-
-
-def _install_probes():
-    """record (without changing behaviour) the two places where tabor.py silently turns a volatile count into an int"""
-    global _PATCHED
-    if _PATCHED:
-        return
-    _PATCHED = True
-    try:
-        from qupulse.program.loop import Loop
-        from qupulse.program.volatile import VolatileRepetitionCount
-        import qupulse._program.tabor as tabor
-        prop = Loop.__dict__['repetition_count']
-        fset = prop.fset
-
-        def probe_set(self, val):
-            caller = sys._getframe(1).f_code.co_name
-            if isinstance(self._repetition_definition, VolatileRepetitionCount):
-                EVENTS.append('int_setter_on_volatile:' + caller)
-            if caller == 'prepare_program_for_advanced_sequence_mode' and self.parent is not None:
-                # a neighbour's iteration is moved into an adjacent table: is that table volatile (current count 1)?
-                idx = self.parent_index
-                for j in (idx - 1, idx + 1):
-                    if 0 <= j < len(self.parent) and \
-                            isinstance(self.parent[j]._repetition_definition, VolatileRepetitionCount):
-                        EVENTS.append('neighbour_unroll_into_volatile_one')
-            return fset(self, val)
-        Loop.repetition_count = property(prop.fget, probe_set, prop.fdel, prop.__doc__)
-        orig = tabor._check_merge_with_next
-
-        def probe_merge(program, n, max_seq_len):
-            vol = isinstance(program[n].repetition_definition, VolatileRepetitionCount) or \
-                  isinstance(program[n + 1].repetition_definition, VolatileRepetitionCount)
-            r = orig(program, n, max_seq_len)
-            if r and vol:
-                EVENTS.append('merge_with_next_volatile')
-            return r
-        tabor._check_merge_with_next = probe_merge
-    except Exception:   # a refactoring removed a probe point: events are simply not recorded (fail-closed in classify)
-        pass
 
 
 def _wf_id(wf):
@@ -573,9 +532,6 @@ def _tabor_pipeline(case, vals):
                 return {'err': True}, None
             if case['cl']:
                 prog.cleanup()
-            if isinstance(prog.repetition_definition, VolatileRepetitionCount) and prog.repetition_count == 1 \
-                    and prog.depth() >= 1:
-                EVENTS.append('root_volatile_count_one')
             tp = _compile(prog, case['mode'], case['mn'], case['mx'])
         except _expected():
             return {'err': True}, None
@@ -584,7 +540,6 @@ def _tabor_pipeline(case, vals):
 
 
 def run_impl(case):
-    _install_probes()
     del EVENTS[:]
     try:
         with vlib.time_limit(20):
@@ -765,15 +720,6 @@ def classify(case, obs):
             except KeyError:
                 pass
     if case['kind'] == 'tabor':
-        ev = obs.get('events', [])
-        if 'root_volatile_count_one' in ev:
-            return 'C15-tabor-root-volatile-one'
-        if 'neighbour_unroll_into_volatile_one' in ev:
-            return 'C15-tabor-extend-volatile-one'
-        if 'merge_with_next_volatile' in ev:
-            return 'C15-tabor-merge-volatile-one'
-        if 'int_setter_on_volatile:prepare_program_for_advanced_sequence_mode' in ev:
-            return 'C15-tabor-neighbour-unroll-drops-volatile'
         b = obs['before']
         if 'adv' in b:
             # two volatile positions of different advanced entries resolve to the same shared sequencer table
